@@ -37,6 +37,9 @@ type vdesc struct {
 }
 
 type typedRec struct {
+	Name   string `json:"name"`
+	Target tdesc  `json:"target"`
+	Res    string `json:"res"`
 	Op     string `json:"op"`
 	Type   tdesc  `json:"type"`
 	Val    vdesc  `json:"val"`
@@ -72,6 +75,14 @@ func goType(t tdesc) reflect.Type {
 		return reflect.TypeOf([]byte(nil))
 	case "big":
 		return bigPtr
+	case "arrb1":
+		return reflect.ArrayOf(1, reflect.TypeOf(uint8(0)))
+	case "arrb2":
+		return reflect.ArrayOf(2, reflect.TypeOf(uint8(0)))
+	case "arrb32":
+		return reflect.ArrayOf(32, reflect.TypeOf(uint8(0)))
+	case "arr2":
+		return reflect.ArrayOf(2, goType(t.E[0]))
 	case "ptr":
 		return reflect.PtrTo(goType(t.E[0]))
 	case "slice":
@@ -177,10 +188,21 @@ func (b *builder) build(t tdesc, v vdesc, path string) (reflect.Value, error) {
 			p[64] &= 1
 		}
 		b.push(p)
-		if gt.Kind() == reflect.String {
+		switch gt.Kind() {
+		case reflect.String:
 			res.SetString(string(p))
-		} else {
+		case reflect.Array:
+			reflect.Copy(res, reflect.ValueOf(p))
+		default:
 			res.SetBytes(p)
+		}
+	case "cut": // the first ord[0] bytes of the n-byte string of this position, then ord[1] zero bytes
+		p := genPayload(v.N, v.C, b.rnd(path))
+		q := append(append([]byte{}, p[:v.Ord[0]]...), make([]byte, v.Ord[1])...)
+		if gt.Kind() == reflect.Array {
+			reflect.Copy(res, reflect.ValueOf(q))
+		} else {
+			res.SetBytes(q)
 		}
 	case "ptr":
 		inner, err := b.build(t.E[0], v.Items[0], path+"/p")
@@ -191,13 +213,19 @@ func (b *builder) build(t tdesc, v vdesc, path string) (reflect.Value, error) {
 		p.Elem().Set(inner)
 		res.Set(p)
 	case "list":
-		res.Set(reflect.MakeSlice(gt, 0, len(v.Items)))
+		if gt.Kind() != reflect.Array {
+			res.Set(reflect.MakeSlice(gt, 0, len(v.Items)))
+		}
 		for i, it := range v.Items {
 			x, err := b.build(t.E[0], it, fmt.Sprintf("%s/%d", path, i))
 			if err != nil {
 				return res, err
 			}
-			res.Set(reflect.Append(res, x))
+			if gt.Kind() == reflect.Array {
+				res.Index(i).Set(x)
+			} else {
+				res.Set(reflect.Append(res, x))
+			}
 		}
 	case "struct":
 		for i, it := range v.Items {
@@ -273,6 +301,13 @@ func equal(a, b reflect.Value) bool {
 			return a.IsNil() == b.IsNil()
 		}
 		return equal(a.Elem(), b.Elem())
+	case reflect.Array:
+		for i := 0; i < a.Len(); i++ {
+			if !equal(a.Index(i), b.Index(i)) {
+				return false
+			}
+		}
+		return true
 	case reflect.Slice:
 		if a.IsNil() != b.IsNil() || a.Len() != b.Len() {
 			return false
@@ -360,6 +395,44 @@ func runTyped(r typedRec, variant int, seed int64) (string, *fail) {
 	return input, nil
 }
 
+// write a value of one type, read the bytes into a fresh value of another type
+func runCross(r typedRec, variant int, seed int64) (string, *fail) {
+	b := &builder{seed: seed, variant: variant}
+	val, err := b.build(r.Type, r.Val, "")
+	if err != nil {
+		return "", &fail{false, "model:value", err.Error()}
+	}
+	input := fmt.Sprintf("%s: %s %s into %s", r.Name, goType(r.Type), show(val), goType(r.Target))
+	want, err := concStream(r.Stream, b.payloads)
+	if err != nil {
+		return input, &fail{false, "model:stream", err.Error()}
+	}
+	got, err := codec.RLP.MarshalToBytes(val.Interface())
+	if err != nil || !bytes.Equal(got, want) {
+		return input, &fail{true, "typed:bytes", fmt.Sprintf("MarshalToBytes(%s) = %x.., spec says %x.. (%v)", input, head(got), head(want), err)}
+	}
+	target := reflect.New(goType(r.Target))
+	_, err = codec.RLP.UnmarshalFromBytes(got, target.Interface())
+	if r.Res == "reject" {
+		if err == nil {
+			return input, &fail{true, "cross:accepts:" + r.Name, fmt.Sprintf("%s: decoded without error as %s", input, show(target.Elem()))}
+		}
+		return input, nil
+	}
+	if err != nil {
+		return input, &fail{true, "cross:rejects:" + r.Name, fmt.Sprintf("%s: %v", input, err)}
+	}
+	b2 := &builder{seed: seed, variant: variant}
+	exp, err := b2.build(r.Target, r.Back, "")
+	if err != nil {
+		return input, &fail{false, "model:back", err.Error()}
+	}
+	if !equal(target.Elem(), exp) {
+		return input, &fail{true, "cross:value:" + r.Name, fmt.Sprintf("%s: decoded as %s, spec says %s", input, show(target.Elem()), show(exp))}
+	}
+	return input, nil
+}
+
 func TestReplayTyped(t *testing.T) {
 	if !tlaio.HaveInput() {
 		t.Skip("driven by tools/check.py")
@@ -374,15 +447,26 @@ func TestReplayTyped(t *testing.T) {
 		if err := json.Unmarshal(raw, &steps); err != nil {
 			return err
 		}
-		if len(steps) != 1 || steps[0].Op != "typed" {
+		if len(steps) != 1 || (steps[0].Op != "typed" && steps[0].Op != "cross") {
 			return fmt.Errorf("case %d: malformed behaviour", idx)
 		}
 		id := fmt.Sprintf("t%d", idx)
 		var sigv, sigt []byte
 		sigt, _ = json.Marshal(steps[0].Type)
 		sigv, _ = json.Marshal(steps[0].Val)
+		sigv = append(sigv, []byte(steps[0].Name)...)
+		if steps[0].Op == "cross" {
+			tt, _ := json.Marshal(steps[0].Target)
+			sigv = append(sigv, tt...)
+		}
 		for v := 0; v < variants; v++ {
-			input, f := runTyped(steps[0], v, tlaio.Seed()*1000003+int64(idx)*31+int64(v))
+			var input string
+			var f *fail
+			if steps[0].Op == "cross" {
+				input, f = runCross(steps[0], v, tlaio.Seed()*1000003+int64(idx)*31+int64(v))
+			} else {
+				input, f = runTyped(steps[0], v, tlaio.Seed()*1000003+int64(idx)*31+int64(v))
+			}
 			if f == nil {
 				continue
 			}
